@@ -247,7 +247,8 @@ Definition spec_fill (k : list simplex) (a b : Z) : list simplex :=
   let news := flat_map (fun t => if smem b t && negb (smem a t) && kmem (sinsert a (sremove b t)) k
                                  then (let n := sinsert a t in if kmem n k then [] else [n]) else []) k in
   k ++ news.
-Definition spec_add_edge_fill (k : acplx) (a b : Z) : acplx := (fst k, spec_fill (snd k) a b).
+Definition spec_add_edge_fill (k : acplx) (a b : Z) : acplx :=
+  if kmem [Z.min a b; Z.max a b] (snd k) then k else (fst k, spec_fill (snd k) a b).
 Definition spec_add_simplex (k : acplx) (s : simplex) : acplx :=
   (fst k, snd k ++ filter (fun f => negb (kmem f (snd k))) (faces s)).
 Definition spec_remove_star (k : acplx) (s : simplex) : acplx :=
